@@ -15,7 +15,8 @@ good sibling), and sent to a capturing resolver over every input route:
 plus the same field selected at several places of one operation with different arguments (aliases,
 same response key under different parents, list items, merged duplicates, different depths: all
 ordered pairs -- thorough: triples -- of argument assignments), nullable variables at non-null
-positions (allowed when a default exists), presence enumerations
+positions (allowed when a default exists), a lone object literal containing a variable in a list
+position (depth 1 and 2, lone / bracketed / all-variable spellings), presence enumerations
 (provided / omitted / explicit null / through a provided, null, omitted or defaulted variable) for every argument of a 3-argument field (7^3), for the fields of an input object
 literal (7^3), for every type with and without argument default, @skip/@include conditions, and
 defaults declared in SDL.  The oracle is mc/ref/coerce.py (spec transliteration) + conforms().
@@ -46,7 +47,7 @@ RULE = (
     "placements (leaf nested 0..k+1 lists deep, beside a null, beside a valid sibling) x the base's value alphabet "
     "(natural values, 32-bit boundaries, integral/non-integral floats, numeric strings, booleans, null, one value of every "
     "other JSON kind; for the input object: 3^k presence combinations, every field x its alphabet, unknown fields, wrong kinds), "
-    "plus literal-only leaves, ordered pairs (thorough: triples) of argument assignments (literal / variable / unset variable / null / default per argument) for one field selected at several places of one operation (5 placements), nullable variables (null / unset / value) at every non-null-typed position that has a default, 7^3 argument-presence and 7^3 object-literal-presence combinations, per-type argument "
+    "plus literal-only leaves, lone object literals containing a variable (provided / null / unset with default / unset) in list positions of depth 1 and 2 for every type x 5 spellings + the all-variable spelling, ordered pairs (thorough: triples) of argument assignments (literal / variable / unset variable / null / default per argument) for one field selected at several places of one operation (5 placements), nullable variables (null / unset / value) at every non-null-typed position that has a default, 7^3 argument-presence and 7^3 object-literal-presence combinations, per-type argument "
     "presence with/without default, @skip/@include conditions, SDL-declared defaults; evaluation = one run of the "
     "implementation on one route compared with the reference; non-trivial = distinct (type, value, route-independent) "
     "case for which the reference accepts on some route (so the resolver must run and its kwargs are compared) or "
@@ -138,6 +139,7 @@ def cases(tier):
             yield {"k": "argpres", "base": b, "shape": s}
             if s.endswith("N"):
                 yield {"k": "nnvar", "base": b, "shape": s}
+            yield {"k": "wrapvar", "base": b, "shape": s}
     for combo in _product(ARG_STATES, 3):
         yield {"k": "args", "states": list(combo)}
     for combo in _product(ARG_STATES, 3):
@@ -293,6 +295,8 @@ def _build():
         field("f%d" % i, [arg("x", t)])
         field("l%d" % i, [arg("x", ["list", t])])
         field("b%d" % i, [arg("x", "Box%d" % i, "py_x")])
+        field("lb%d" % i, [arg("x", ["list", "Box%d" % i])])
+        field("llb%d" % i, [arg("x", ["list", ["list", ["nn", "Box%d" % i]]])])
         dflt = R.coerce_variable(t, _good_value(b, s), m)
         field("fd%d" % i, [arg("x", t, default=dflt)])
         d, a = arg("x", t)
@@ -916,6 +920,69 @@ def eval_nnvar(case, st=None):
     return _dedupe(out)
 
 
+def eval_wrapvar(case, st=None):
+    """
+    A lone (non-list) object literal standing in a list position is wrapped; a VARIABLE inside that
+    literal must still be resolved.  Positions `lb<i>(x: [Box<i>])` and `llb<i>(x: [[Box<i>!]])` with
+    Box<i> = {v: T (py_v)}: the literal `{v: $v}` written lone, inside one and inside two list
+    brackets, $v provided / null / unset with default / unset; plus the all-variable spelling.
+    Every spelling is compared with the reference, hence with each other.
+    """
+    m = _model()
+    schema, argdefs = _schema()
+    b, s = case["base"], case["shape"]
+    i = TINDEX[(b, s)]
+    t = V.mk_type(b, s)
+    good = _good_value(b, s)
+    good_tree = V.natural_tree(good, t, m)
+    box = "Box%d" % i
+    V_ = ["var", "v"]
+    obj = ["obj", [["v", V_]]]
+    out = []
+    states = [("provided", None, {"v": good}), ("null", None, {"v": None}), ("unset-default", good_tree, {}), ("unset", None, {})]
+    spellings = [
+        ("lb%d" % i, "lone", "{v: $v}", obj),
+        ("lb%d" % i, "bracketed", "[{v: $v}]", ["list", [obj]]),
+        ("llb%d" % i, "lone", "{v: $v}", obj),
+        ("llb%d" % i, "inner-lone", "[{v: $v}]", ["list", [obj]]),
+        ("llb%d" % i, "bracketed", "[[{v: $v}]]", ["list", [["list", [obj]]]]),
+    ]
+    for state, vdefault, payload in states:
+        vd = [["v", t, vdefault]]
+        for target, spelling, txt, tree in spellings:
+            text = "query%s { %s(x: %s) }" % (_render_vardefs(vd), target, txt)
+            ad = argdefs[target]
+            adm = _expect(vd, payload, ad, {"x": tree}, m)
+            impl, stage = run_e2e(text, payload, target)
+            if st is not None:
+                st.n("evaluations")
+                st.n("route:lone-literal-with-variable")
+                st.outcome(("wrapvar", spelling, impl.kind, stage))
+                st.nt(("wrapvar", text, json.dumps(payload, sort_keys=True)))
+            v = judge(adm, impl, ad, m)
+            if v is not None:
+                focus = [b, "variable-%s" % state]
+                out.append((_cls(v[0], focus, "object-in-list-position:%s" % spelling), "%s variables=%s: %s" % (text, json.dumps(payload), v[1])))
+    # the same value with everything through one variable (coerce_value does the wrapping)
+    for target, wt in (("lb%d" % i, ["list", box]), ("llb%d" % i, ["list", ["list", ["nn", box]]])):
+        for state, value in (("provided", {"v": good}), ("null", {"v": None})):
+            vd = [["w", wt, None]]
+            payload = {"w": value}
+            text = "query%s { %s(x: $w) }" % (_render_vardefs(vd), target)
+            ad = argdefs[target]
+            adm = _expect(vd, payload, ad, {"x": ["var", "w"]}, m)
+            impl, stage = run_e2e(text, payload, target)
+            if st is not None:
+                st.n("evaluations")
+                st.n("route:lone-literal-with-variable")
+                st.outcome(("wrapvar", "all-variable", impl.kind, stage))
+                st.nt(("wrapvar", text, json.dumps(payload, sort_keys=True)))
+            v = judge(adm, impl, ad, m)
+            if v is not None:
+                out.append((_cls(v[0], [b, "variable-%s" % state], "object-in-list-position:all-variable"), "%s variables=%s: %s" % (text, json.dumps(payload), v[1])))
+    return _dedupe(out)
+
+
 def eval_cond(case, st=None):
     """@skip / @include conditions: a wrong-kind value must not decide whether a resolver runs."""
     m = _model()
@@ -1242,6 +1309,8 @@ def evaluate(case, st=None):
         return eval_argpres(case, st)
     if k == "nnvar":
         return eval_nnvar(case, st)
+    if k == "wrapvar":
+        return eval_wrapvar(case, st)
     if k == "cond":
         return eval_cond(case, st)
     if k == "sdl":
